@@ -9,7 +9,8 @@ CONSTANTS
   MaxFields = 12
   MaxConsts = 3
   CKinds = {"int", "text", "tuple", "msgid", "method"}
-  Kinds = {"?", "H", "I", "q", "20s", "varlenH", "varlenHutf8", "bits", "payload", "payload-list", "address", "arrayH-q"}
+  Kinds = {"?", "H", "I", "q", "20s", "varlenH", "varlenHutf8", "bits", "payload", "payload-list", "address", "arrayH-q", "d", "arrayH-?", "arrayH-d"}
 INVARIANT RoundTripDef
 INVARIANT DefaultsUsed
 INVARIANT ConstsOffWire
+INVARIANT AnnotationsMean
